@@ -90,6 +90,7 @@ Section ClientFacts.
   Variable subject_of : str -> option (option desc).
   Variables main other : str.
   Variable user_mts : list str.
+  Variable limit : N.
   Variable srv : Type.
   Variable exch : srv -> request -> srv * response.
 
@@ -213,7 +214,7 @@ Section ClientFacts.
   Qed.
 
   Lemma man_resolve_allowed s rs s' t res :
-    man_resolve H parse_mt main user_mts srv exch s rs = (s', t, res) -> all_allowed t.
+    man_resolve H parse_mt main user_mts limit srv exch s rs = (s', t, res) -> all_allowed t.
   Proof.
     unfold man_resolve. destruct (resolve_ref main rs) as [rf|] eqn:ER; [|intro X; inv_pair X; auto with c13].
     apply resolve_ref_valid in ER.
@@ -221,7 +222,7 @@ Section ClientFacts.
   Qed.
 
   Lemma man_fetchref_allowed s rs s' t res :
-    man_fetchref H parse_mt main user_mts srv exch s rs = (s', t, res) -> all_allowed t.
+    man_fetchref H parse_mt main user_mts limit srv exch s rs = (s', t, res) -> all_allowed t.
   Proof.
     unfold man_fetchref. destruct (resolve_ref main rs) as [rf|] eqn:ER; [|intro X; inv_pair X; auto with c13].
     pose proof (resolve_ref_valid _ _ ER) as V.
@@ -230,7 +231,7 @@ Section ClientFacts.
     destruct (exch s _) as [s1 r].
     destruct (r_status r =? 200); [|intro X; inv_pair X; auto with c13].
     destruct (r_clen r); [intro X; inv_pair X; auto with c13|].
-    destruct (man_resolve _ _ _ _ _ _ s1 rs) as [[s2 t2] res2] eqn:E.
+    destruct (man_resolve _ _ _ _ _ _ _ s1 rs) as [[s2 t2] res2] eqn:E.
     apply man_resolve_allowed in E. intro X; inv_pair X. auto with c13.
   Qed.
 
@@ -256,10 +257,11 @@ Section ClientFacts.
 
   Lemma man_push_allowed s rst d c rf s' rst' t res :
     valid_ref rf = true -> d_mt d <> [] ->
-    man_push H subject_of main srv exch s rst d c rf = (s', rst', t, res) -> all_allowed t.
+    man_push H subject_of main limit srv exch s rst d c rf = (s', rst', t, res) -> all_allowed t.
   Proof.
     intros Hr Hm. unfold man_push.
     destruct (indexable (d_mt d) && negb (rs_supported rst)); [|apply man_put_allowed; auto].
+    destruct (limit <? d_sz d); [intro X; inv_pair X; auto with c13|].
     destruct (negb (len c =? d_sz d) || negb (str_eqb (H c) (d_dg d))); [intro X; inv_pair X; auto with c13|].
     destruct (man_put _ _ _ s rst d c true rf) as [[[s1 rst1] t1] res1] eqn:E.
     apply man_put_allowed in E; auto.
@@ -270,11 +272,12 @@ Section ClientFacts.
 
   Lemma man_delete_allowed s rst d s' rst' t res :
     valid_digest (d_dg d) = true ->
-    man_delete H parse_mt subject_of main srv exch s rst d = (s', rst', t, res) -> all_allowed t.
+    man_delete H parse_mt subject_of main limit srv exch s rst d = (s', rst', t, res) -> all_allowed t.
   Proof.
     intros Hd. unfold man_delete.
     destruct (indexable_del (d_mt d) && negb (rs_supported rst)).
-    - destruct (man_fetch _ _ _ _ s d) as [[s1 t1] res1] eqn:E1.
+    - destruct (limit <? d_sz d); [intro X; inv_pair X; auto with c13|].
+      destruct (man_fetch _ _ _ _ s d) as [[s1 t1] res1] eqn:E1.
       apply man_fetch_allowed in E1; auto.
       destruct res1; try (intro X; inv_pair X; exact E1).
       destruct (negb (len c =? d_sz d) || negb (str_eqb (H c) (d_dg d))); [intro X; inv_pair X; exact E1|].
@@ -317,8 +320,8 @@ Section ClientFacts.
       destruct (r_status r =? 404); intro X; inv_pair X; auto with c13.
   Qed.
 
-  Notation run_op' := (run_op H parse_mt subject_of main other user_mts srv exch).
-  Notation run_ops' := (run_ops H parse_mt subject_of main other user_mts srv exch).
+  Notation run_op' := (run_op H parse_mt subject_of main other user_mts limit srv exch).
+  Notation run_ops' := (run_ops H parse_mt subject_of main other user_mts limit srv exch).
 
   Lemma lift_eq {A} (x : A * trace * result) rst a rst' t res :
     lift A x rst = (a, rst', t, res) -> exists a0, x = (a0, t, res).
@@ -335,7 +338,7 @@ Section ClientFacts.
       + eapply man_fetch_allowed; eauto.
       + eapply blob_fetch_allowed with (repo := main); eauto.
     - destruct Hok as [Hd Hm]. destruct (is_manifest user_mts d).
-      + destruct (man_resolve _ _ _ _ _ _ s (d_dg d)) as [[s1 t1] r1] eqn:E.
+      + destruct (man_resolve _ _ _ _ _ _ _ s (d_dg d)) as [[s1 t1] r1] eqn:E.
         apply man_resolve_allowed in E. intro X; inv_pair X. exact E.
       + destruct (blob_resolve _ _ _ _ s (d_dg d)) as [[s1 t1] r1] eqn:E.
         apply blob_resolve_allowed in E. intro X; inv_pair X. exact E.
@@ -394,6 +397,7 @@ Section Consistency.
   Variable parse_mt : str -> option str.
   Variables main other : str.
   Variable user_mts : list str.
+  Variable limit : N.
   Variable srv : Type.
   Variable exch : srv -> request -> srv * response.
 
@@ -438,11 +442,12 @@ Section Consistency.
      agrees with a digest reference; without a digest header it is the client's
      digest (HEAD, digest reference only) or the digest of the body (GET) *)
   Theorem gen_desc_consistent r rf hd d :
-    gen_desc H parse_mt r rf hd = Some d ->
+    gen_desc H parse_mt limit r rf hd = Some d ->
     parse_mt (nstr (r_ctype r)) = Some (d_mt d) /\ r_clen r = Some (d_sz d) /\
     (valid_digest rf = true -> d_dg d = rf) /\
     match nstr (r_dig r) with
-    | [] => if hd then d_dg d = rf /\ valid_digest rf = true else d_dg d = H (r_body r)
+    | [] => if hd then d_dg d = rf /\ valid_digest rf = true
+            else d_dg d = H (r_body r) /\ (limit <? len (r_body r)) = false
     | sd => sd = d_dg d /\ valid_digest sd = true
     end.
   Proof.
@@ -455,9 +460,12 @@ Section Consistency.
         * destruct rf as [|y rf]; [discriminate|].
           rewrite str_eqb_refl. cbn [negb]. intro X; injection X as <-. cbn. auto.
         * destruct rf as [|y rf]; [discriminate|].
+          destruct (limit <? len (r_body r)) eqn:El; [discriminate|].
           destruct (str_eqb (y :: rf) (H (r_body r))) eqn:Eq; cbn [negb]; [|discriminate].
           apply str_eqb_spec in Eq. intro X; injection X as <-. cbn. auto.
-      + destruct hd; [discriminate|]. intro X; injection X as <-. cbn.
+      + destruct hd; [discriminate|].
+        destruct (limit <? len (r_body r)) eqn:El; [discriminate|].
+        intro X; injection X as <-. cbn.
         repeat split; auto. discriminate.
     - destruct (valid_digest (x :: sd)) eqn:Vs; cbn [negb]; [|discriminate].
       destruct (valid_digest rf) eqn:Vr.
@@ -480,15 +488,15 @@ Section Consistency.
   (* Resolve / FetchReference: a descriptor is returned only for a valid reference,
      from a 200, and it is consistent with the (last) response and the reference *)
   Theorem man_resolve_consistent s rs s' t d :
-    man_resolve H parse_mt main user_mts srv exch s rs = (s', t, RDesc d) ->
+    man_resolve H parse_mt main user_mts limit srv exch s rs = (s', t, RDesc d) ->
     exists rf q r, resolve_ref main rs = Some rf /\ t = [(q, r)] /\ q_ep q = EManifest rf /\
-                   r_status r = 200 /\ gen_desc H parse_mt r rf true = Some d.
+                   r_status r = 200 /\ gen_desc H parse_mt limit r rf true = Some d.
   Proof.
     unfold man_resolve. destruct (resolve_ref main rs) as [rf|]; [|discriminate].
     destruct (exch s _) as [s1 r]. intro X. injection X as _ <- X.
     eexists rf, _, r. split; [reflexivity|]. split; [reflexivity|]. split; [reflexivity|].
     destruct (r_status r =? 200) eqn:Es.
-    - apply N.eqb_eq in Es. destruct (gen_desc H parse_mt r rf true); [|discriminate].
+    - apply N.eqb_eq in Es. destruct (gen_desc H parse_mt limit r rf true); [|discriminate].
       injection X as <-. auto.
     - destruct (r_status r =? 404); discriminate.
   Qed.
@@ -509,7 +517,7 @@ Section Consistency.
   Qed.
 
   Lemma man_resolve_shape s rs s' t res :
-    man_resolve H parse_mt main user_mts srv exch s rs = (s', t, res) ->
+    man_resolve H parse_mt main user_mts limit srv exch s rs = (s', t, res) ->
     (exists d, res = RDesc d) \/ (exists e, res = RErr e).
   Proof.
     unfold man_resolve. destruct (resolve_ref main rs) as [rf|]; [|intro X; injection X as _ _ <-; eauto].
@@ -519,20 +527,20 @@ Section Consistency.
   Qed.
 
   Theorem man_fetchref_consistent s rs s' t d c :
-    man_fetchref H parse_mt main user_mts srv exch s rs = (s', t, RDescBytes d c) ->
+    man_fetchref H parse_mt main user_mts limit srv exch s rs = (s', t, RDescBytes d c) ->
     exists rf q r rest, resolve_ref main rs = Some rf /\ t = (q, r) :: rest /\
       r_status r = 200 /\ c = r_body r /\
-      ((rest = [] /\ gen_desc H parse_mt r rf false = Some d) \/
+      ((rest = [] /\ gen_desc H parse_mt limit r rf false = Some d) \/
        (r_clen r = None /\ exists q2 r2, rest = [(q2, r2)] /\ r_status r2 = 200 /\
-                                         gen_desc H parse_mt r2 rf true = Some d)).
+                                         gen_desc H parse_mt limit r2 rf true = Some d)).
   Proof.
     unfold man_fetchref. destruct (resolve_ref main rs) as [rf|] eqn:ER; [|discriminate].
     destruct (exch s _) as [s1 r].
     destruct (r_status r =? 200) eqn:Es.
     - apply N.eqb_eq in Es. destruct (r_clen r) as [n|] eqn:Ec.
       + intro X. injection X as _ <- X. eexists rf, _, r, []. repeat (split; [reflexivity|]).
-        destruct (gen_desc H parse_mt r rf false); [|discriminate]. injection X as <- <-. auto.
-      + destruct (man_resolve _ _ _ _ _ _ s1 rs) as [[s2 t2] res2] eqn:E2.
+        destruct (gen_desc H parse_mt limit r rf false); [|discriminate]. injection X as <- <-. auto.
+      + destruct (man_resolve _ _ _ _ _ _ _ s1 rs) as [[s2 t2] res2] eqn:E2.
         intro X. injection X as _ <- X.
         destruct (man_resolve_shape _ _ _ _ _ E2) as [[d0 ->]|[e ->]]; [|discriminate].
         injection X as <- <-.
